@@ -1,6 +1,6 @@
 (* C14/ProofsDDN.v — DDN transition probability = product of local probabilities; sums to one. *)
 From Coq Require Import List Arith Lia QArith Lqa.
-From AIT Require Import C14.Model C14.Spec C14.Proofs C14.ModelAlg C14.SpecAlg C14.ProofsAlg C14.ModelDDN C14.SpecDDN.
+From AIT Require Import C14.Model C14.Spec C14.Proofs C14.ModelAlg C14.SpecAlg C14.ProofsAlg C14.ProofsCore C14.ModelDDN C14.SpecDDN.
 Import ListNotations.
 Local Open Scope Q_scope.
 
@@ -178,4 +178,70 @@ Proof.
         * symmetry. rewrite Nat.add_comm, Nat.mul_comm, Nat.mod_add by lia. apply Nat.mod_small; assumption.
         * f_equal. rewrite Nat.add_comm, Nat.mul_comm, Nat.div_add by lia. rewrite Nat.div_small by assumption. reflexivity. }
   specialize (Hgen 0%nat). rewrite Nat.mul_0_r in Hgen. exact Hgen.
+Qed.
+
+(* ---------------------------------------------------------------- graphs built by push ---- *)
+(* what push validates for a parent set *)
+Definition ps_valid (S A : list nat) (p : parentSet) : Prop :=
+  tag_is_ok A (psAgents p) = true /\
+  length (psFeatures p) = factorSpacePartial (psAgents p) A /\
+  forallb (tag_is_ok S) (psFeatures p) = true.
+
+Inductive graph_built : ddnGraph -> Prop :=
+| gb_new : forall S A, graph_built (graph_new S A)
+| gb_push : forall g p g', graph_built g -> graph_push g p = PushOk g' -> graph_built g'.
+
+Lemma graph_push_valid : forall g p g', graph_push g p = PushOk g' -> ps_valid (gS g) (gA g) p.
+Proof.
+  intros g p g' H. unfold graph_push in H.
+  destruct (length (gParents g) =? length (gS g))%nat; [discriminate|].
+  destruct (tag_is_ok (gA g) (psAgents p)) eqn:E1; cbn [negb] in H; [|discriminate].
+  destruct (length (psFeatures p) =? factorSpacePartial (psAgents p) (gA g))%nat eqn:E2; cbn [negb] in H; [|discriminate].
+  destruct (forallb (tag_is_ok (gS g)) (psFeatures p)) eqn:E3; cbn [negb] in H; [|discriminate].
+  apply Nat.eqb_eq in E2. repeat split; assumption.
+Qed.
+
+Lemma graph_built_props : forall g, graph_built g ->
+  graph_wf g /\ Forall (ps_valid (gS g) (gA g)) (gParents g).
+Proof.
+  intros g H; induction H as [S A|g p g' Hb [IHwf IHv] Hp].
+  - split; [apply graph_new_wf | constructor].
+  - destruct (graph_push_wf g p g' IHwf Hp) as [Hwf [HS [HA HP]]].
+    split; [assumption|]. rewrite HS, HA, HP. apply Forall_app. split; [assumption|].
+    constructor; [eapply graph_push_valid; eassumption | constructor].
+Qed.
+
+Lemma tag_is_ok_sound : forall space tag, tag_is_ok space tag = true ->
+  tag <> [] /\ strict tag /\ tag_ok space tag.
+Proof.
+  intros space tag H. unfold tag_is_ok in H. apply checkTag_ok_iff_lemma.
+  destruct (fst (checkTag space tag)); try discriminate. reflexivity.
+Qed.
+
+Theorem built_action_in_range : forall g a,
+  graph_built g -> graph_complete g -> in_space (gA g) a -> action_in_range g a.
+Proof.
+  intros g a Hb Hc Ha i Hi. destruct (graph_built_props g Hb) as [_ Hv].
+  unfold graph_complete in Hc. rewrite Forall_forall in Hv.
+  specialize (Hv (nth i (gParents g) emptyPS) ltac:(apply nth_In; lia)). destruct Hv as [H1 [H2 _]].
+  destruct (tag_is_ok_sound _ _ H1) as [_ [_ Hok]].
+  unfold action_id. rewrite H2, factorSpacePartial_sub.
+  apply radix_value_lt. apply in_space_sub; assumption.
+Qed.
+
+Theorem ddn_product_built_lemma : forall g T s a s1,
+  graph_built g -> graph_complete g -> in_space (gA g) a ->
+  getTransitionProbability g T s a s1 ==
+  qprod (map (fun i => local_prob g T i s a (nth i s1 0%nat)) (seq 0 (length (gS g)))).
+Proof.
+  intros g T s a s1 Hb Hc Ha. apply ddn_product_lemma; [apply graph_built_props; assumption | assumption |].
+  apply built_action_in_range; assumption.
+Qed.
+
+Theorem ddn_sums_to_one_built_lemma : forall g T s a,
+  graph_built g -> graph_complete g -> in_space (gA g) a -> rows_stochastic g T s a ->
+  qsum (map (getTransitionProbability g T s a) (all_assign (gS g))) == 1.
+Proof.
+  intros g T s a Hb Hc Ha Hr. apply ddn_sums_to_one_lemma; [apply graph_built_props; assumption | assumption | | assumption].
+  apply built_action_in_range; assumption.
 Qed.
